@@ -35,7 +35,7 @@ LEADS = [("MC_Ledger_t.tla", "MC_Ledger_lead_atomic.cfg", dict(W3, blocksPer=10)
 # goal-directed generation: breadth-first TLC runs that print a shortest behaviour for every coverage
 # goal (named branch of the transcription, Ledger!Goals) -> (module, cfg, harness world)
 W4 = {"stakers": 2, "operators": 2, "assets": ["nat", "lst"], "holdops": ["o1"],
-      "scales": ["1", "1000003"], "blocksPer": 5, "modelPrec": 100}
+      "scales": ["1", "1000003"], "blocksPer": 5, "modelPrec": 100, "natFunds": "3"}
 def _g(w):
     """goal configs use UNBOND = 1: ten real blocks per model EndBlock; moderate scales so that the slash
     power (scaled like the amounts) still fits int64"""
@@ -49,7 +49,7 @@ GOALS = [("MC_Ledger_goalA.tla", "MC_Ledger_goal_A.cfg", [_g(W1), _g(W1P)]), ("M
 ALL_GOALS = """dep_ok wd_ok wd_over_balance_within_total wd_within_balance_over_total del_first_into_pool del_skewed_rate del_self
 del_native del_again_after_empty del_top_up del_with_codelegator del_over_withdrawable und_partial und_full_exit_others_remain
 und_last_share und_skewed_rate und_hold_placed und_native und_self und_second_pending_same_staker_asset und_over_position
-assoc_with_position dissoc_with_position hold_released eb_release eb_release_two_in_one_block eb_release_partly_slashed
+assoc_with_position assoc_refused_with_position dissoc_with_position hold_released eb_release eb_release_two_in_one_block eb_release_partly_slashed
 eb_release_fully_slashed eb_release_native eb_requeue_held eb_release_after_requeue slash_partial slash_full slash_wipes_pool
 slash_hits_pending_record slash_record_to_zero slash_spares_older_record slash_multi_asset slash_pool_fully_unbonding_other_bonded
 slash_partial_pool_fully_unbonding_other_bonded slash_partial_hits_pending_record
@@ -63,7 +63,7 @@ TAG_UNIVERSE = {
     "C02": ["C02_ShareSum", "C02_SelfShare", "C02_ListExact", "C02_EmptyPool", "C02_Fair", "C02_RoundTripIn", "C02_RoundTripOut"],
     "C03": ["C03_PendingSums", "C03_IndexBijective", "C03_AcceptUndelegate", "C03_AcceptWithdraw", "C03_OneRecord",
             "C03_RecordLostOrChanged", "C03_SpuriousRecord", "C03_ReleasedEarly", "C03_ReleasedWhileHeld",
-            "C03_NotReleasedWhenDue", "C03_Credit"],
+            "C03_NotReleasedWhenDue", "C03_Credit", "C03_PendingSlashNotRecorded"],
     "C04": ["C04_Proportion", "C04_SameFractionPools", "C04_SameFractionUndelegations", "C04_NotAtRiskTouched", "C04_Frame",
             "C04_ReplayAccepted", "C04_ReplaySlashedAgain", "C04_NotRecorded", "C04_RecordedPools", "C04_RecordedUndelegations"],
     "C09": ["C09_FailedButChanged", "C09_EndBlockItemPartial"],
